@@ -465,6 +465,11 @@ where
             res = txs_receiver.receive() => res,
         };
         let tx = res.expect("receiving tx");
+        // clients are not trusted to respect the size limit, and the space accounting relies on it
+        if tx.0.len() > MAX_TRANSACTION_SIZE {
+            warn!("dropping oversized transaction of {} bytes", tx.0.len());
+            continue;
+        }
         tx_count += 1;
         wincode::serialize_into(&mut buffer, &tx)
             .expect("serializing transaction into buffer should not fail");
